@@ -17,6 +17,7 @@ RULE = ("A Distribution or Flow (StandardNormal, DiagonalNormal, ConditionalDiag
         "with a row-identifying conditional base (mean 100*i, sigma 0.01), block i stays block i; batched StandardNormal "
         "samples pass a KS test; context row mismatch -> ValueError; num_samples / batch_size in {0, -3, 2.0, '3', None, [2]} -> "
         "TypeError. MADEMoG with >= 2 context rows: block i of a batched 3000-draw sample follows the mixture conditioned on row i (KS, p=1e-9). "
+        "StandardNormal with float32 / float64 / int64 (class-label) contexts: floating-point samples, every row standard normal (KS, 1500 draws). "
         "Non-trivial: context and batch_size both given, or an error-path case. Distinct = distinct case JSON.")
 ASSUMPTIONS = ["True/False are not generated as counts (bool is an int subclass; the predicate documents nothing else)",
                "DiagonalNormal offers no sampling (NotImplementedError is its documented behaviour)"]
